@@ -39,7 +39,7 @@ def new_field(name, kind, **kw):
 def new_model(name, fields=(), **kw):
     m = {'name': name, 'db_table': None, 'fields': [copy.deepcopy(f) for f in fields],
          'unique_together': [], 'index_together': [], 'indexes': [],
-         'constraints': []}
+         'constraints': [], 'pk': 'id'}
     m.update(kw)
     return m
 
@@ -71,6 +71,10 @@ def get_field(model, name):
         if f['name'] == name:
             return f
     return None
+
+
+def pk_of(model):
+    return model.get('pk') or 'id'
 
 
 def default_table(app, name):
@@ -418,7 +422,7 @@ def _fix_collisions(spec):
         assert t not in seen, t
         seen.add(t)
     for a, n, m in iter_models(spec):
-        cols = {'id'}
+        cols = {pk_of(m)}
         for f in m['fields']:
             if f['kind'] == 'ManyToMany':
                 t = m2m_table_of(a, m, f)
